@@ -347,6 +347,12 @@ def json_docs(chk, tier, seed, rnd):
         items = ", ".join("(%s, %s)" % (xstr(k), render(x)) for k, x in dv.items())
         return "json(mapping<str>().update([%s]))" % items if dv else "json(cast<Mapping<str, JSON>>(mapping<str>()))"
     docs = [doc(0) for _ in range(60 if tier == "quick" else 1500)]
+    # every control character, the characters JSON escapes, and the edges of the planes: alone (so that nothing
+    # else in the string forces an escaping path), inside a word, and as an object key
+    special = [chr(c) for c in list(range(0, 0x21)) + [0x22, 0x2f, 0x5c, 0x7f, 0x80, 0x9f, 0xa0, 0x2028, 0x2029, 0xd7ff, 0xe000, 0xfffd, 0xffff, 0x10000, 0x10ffff]]
+    for ch in special:
+        docs.append(ch)
+        docs.append(["a" + ch + "b", {ch: 1, "k" + ch: [ch]}])
     jobs = [{"id": "js%d" % i, "src": "let d = %s;\nlet s = serialize(d);\nlet back = json_deserialize(s) == d;\n" % render(dv),
              "observe": ["s", "back"], "limits": {"calls": 10 ** 7}, "_doc": dv} for i, dv in enumerate(docs)]
     res = vf.run_jobs([{k: v for k, v in j.items() if not k.startswith("_")} for j in jobs], "c20-json")
